@@ -94,7 +94,7 @@ NOTES['C05'] = {'technique': 'Lean 4 proof by induction over ALL event orders (R
 
 NOTES['C17'] = {'technique': 'Lean 4 proof (interleaving model Conc.Ring: all schedules of unboundedly many producers with the single consumer — delivered = exactly the recorded prefix, each once, in order; capacity; quiescent drain delivers everything; plus ring arithmetic) + skeleton equality + sequential differential + concurrent delivery-log judge',
     'engine': 'proof+gen-skeleton+unit-ring+conc-ring+seq',
-    'text': 'Theorems for every ring state: capacity 16 never exceeded; Full exactly at 16 buffered; the indices held at once occupy distinct slots; recording never moves the head; a refused entry changes nothing. Conc.Ring (every reachable state under every interleaving of reserve/publish/cStart/cTake/cStop): the delivered sequence is exactly the elements recorded at indices below the consumer's index (nothing invented, nothing twice, recording order), tail - head <= 16, a newly reserved slot is empty, and from a state with nothing pending one consumer run ends with head = tail and everything delivered. Skeletons of ring.add, ring.drainTo, Striped.Add, expandOrRetry, DrainTo equal the snapshot. '
+    'text': 'Theorems for every ring state: capacity 16 never exceeded; Full exactly at 16 buffered; the indices held at once occupy distinct slots; recording never moves the head; a refused entry changes nothing. Conc.Ring (every reachable state under every interleaving of reserve/publish/cStart/cTake/cStop): the delivered sequence is exactly the elements recorded at indices below the consumer index (nothing invented, nothing twice, recording order), tail - head <= 16, a newly reserved slot is empty, and from a state with nothing pending one consumer run ends with head = tail and everything delivered. Skeletons of ring.add, ring.drainTo, Striped.Add, expandOrRetry, DrainTo equal the snapshot. '
             'Tie: UNIT-ring exact; CONC-ring (real recorders vs draining consumer, stripe creation/expansion under contention): no invention, at most once, capacity, delivery at quiescence; independence of results: SEQ is exact against a Spec without any read buffer.',
     'note': 'Trusted: Lean kernel; skeleton extractor; Go scheduler for CONC-ring. PARTIAL: the striped table above the rings (stripe creation, expansion) is covered by skeleton equality and CONC-ring only; sync.Pool token reuse is runtime behaviour.'}
 
